@@ -98,7 +98,7 @@ def adequate : Bool := rowsOk L && originsOk L && gtmOk L && collectionsOk L && 
 /-- **The regenerated table is adequate** (re-decided on every run against `Gen/Lattice.lean`). -/
 theorem lattice_adequate : adequate Typelib.Gen.lattice = true := by decide +kernel
 
-theorem lattice_size : Typelib.Gen.lattice.rows.length = 167 ∧ Typelib.Gen.lattice.gtm.length = 18 := by decide +kernel
+theorem lattice_size : Typelib.Gen.lattice.rows.length = 168 ∧ Typelib.Gen.lattice.gtm.length = 18 := by decide +kernel
 
 
 /-! ## 2. Table lemmas -/
